@@ -71,12 +71,13 @@ var violations = []violation{
 	{"bad-close-code", func(rng *rand.Rand, m, ng, open bool) (Frame, bool) {
 		code := core.Pick(rng, []int{0, 1, 999, 1004, 1005, 1006, 1014, 1015, 1016, 2999, 5000, 65535, rng.Intn(1000)})
 		f := fillerFrame(rng, m, 8, true, 0)
-		f.Payload = append([]byte{byte(code >> 8), byte(code)}, "why"...)
+		reason := core.Pick(rng, []string{"why", "", strings.Repeat("r", 99), strings.Repeat("long reason ", 10), strings.Repeat("x", 123), "quote\"d"})
+		f.Payload = append([]byte{byte(code >> 8), byte(code)}, reason...)
 		return f, true
 	}},
 	{"close-reason-not-utf8", func(rng *rand.Rand, m, ng, open bool) (Frame, bool) {
 		f := fillerFrame(rng, m, 8, true, 0)
-		bad := core.Pick(rng, []string{"\xff", "ab\xc3", "\xe2\x82", "\xed\xa0\x80", "\xc0\xaf", "\xf4\x90\x80\x80", "ok\x80"})
+		bad := core.Pick(rng, []string{"\xff", "ab\xc3", "\xe2\x82", "\xed\xa0\x80", "\xc0\xaf", "\xf4\x90\x80\x80", "ok\x80", strings.Repeat("z", 120) + "\xff"})
 		f.Payload = append([]byte{0x03, 0xe8}, bad...)
 		return f, true
 	}},
@@ -504,6 +505,11 @@ func c08Gen(rng *rand.Rand, tier string) []core.Spec {
 		}
 		sp.StaleWDL = rng.Intn(4) == 0
 		sp.Ops = append(genReadProgram(rng, len(msgs)), drainOps(len(msgs)+3)...)
+		if rng.Intn(3) == 0 {
+			// a read limit every message fits under (messages are at most 400 bytes): control frames,
+			// however many, are not counted
+			sp.Ops = append([]ROp{{K: 4, L: 400}}, sp.Ops...)
+		}
 		out = append(out, sp)
 	}
 	// every accepted close code, reasons up to 123 bytes, multi-byte UTF-8 at the boundary
@@ -555,6 +561,9 @@ func c17Gen(rng *rand.Rand, tier string) []core.Spec {
 				}
 				sp := &ReaderSpec{Prop: 17, Server: true, Negotiated: negotiated, RBuf: rb, BrSize: hs, Buffered: B(stream[:k]), Chunks: chunks,
 					Fault: 0, Cmp: true, Drains: true, ViaUpgrade: true}
+				// off the reuse path the library must take from the hijacked reader only what that reader has
+				// buffered: a reader whose source is not the connection (and is at its end) shows any over-read
+				sp.DetachedBr = (rb != 0 || hs <= 256) && rng.Intn(2) == 0
 				if rng.Intn(2) == 0 {
 					sp.Ops = drainOps(len(msgs) + 2)
 				} else {
@@ -581,7 +590,7 @@ func c17Gen(rng *rand.Rand, tier string) []core.Spec {
 			respLen += 103
 		}
 		for k := 0; k <= respLen+len(stream); k++ {
-			sp := &ReaderSpec{Prop: 17, Server: false, Negotiated: negotiated, RBuf: core.Pick(rng, []int{0, 125, 256, 4096}), Chunks: []B{B(stream)},
+			sp := &ReaderSpec{Prop: 17, Server: false, Negotiated: negotiated, RBuf: core.Pick(rng, []int{0, 1, 16, 64, 124, 125, 256, 4096}), Chunks: []B{B(stream)},
 				Fault: 0, Cmp: true, Drains: true, ViaDial: true, DialSplit: k, Ops: drainOps(len(msgs) + 2), Note: "client"}
 			if len(stream) == 0 {
 				sp.Chunks = nil
